@@ -29,6 +29,8 @@ import (
 	"testing"
 	"time"
 
+	"github.com/dapr/kit/logger"
+
 	"verif/harness/internal/mon"
 )
 
@@ -220,6 +222,11 @@ func runRound(rp roundPlan) {
 			defer active.Add(-1)
 			for loop := 0; loop < rp.loops; loop++ {
 				c.loop = loop
+				// every goroutine of the round looks the same logger name up: the first
+				// creation is contended by all of them (judged in checkSharedLoggers)
+				all := fmt.Sprintf("c08/shared/r%d/loop%d/all", rp.idx, loop)
+				noteShared(all, g, logger.NewLogger(all))
+				c.count("log.shared_name_lookups", 1)
 				for k, p := range pipes[g] {
 					rec.Progress()
 					a := active.Load()
@@ -262,6 +269,11 @@ func runRound(rp roundPlan) {
 			rec.Count("pipelines."+p.kind(), 1)
 			if e.got.res == e.ref.res {
 				rec.Count(p.kind()+".same_as_alone", 1)
+				if sc, ok := p.(interface{ sameCounters(outcome) []string }); ok {
+					for _, n := range sc.sameCounters(e.got) {
+						rec.Count(n, 1)
+					}
+				}
 				if e.got.ok {
 					rec.Count(p.kind()+".same_as_alone.real_work", 1)
 				} else {
